@@ -9,7 +9,8 @@ import socket
 from asyncio.futures import Future
 from typing import Optional, Callable
 
-from .exceptions import MaxRetriesException, PartialResponseException, RequestFailedException, RequestRejectedException
+from .exceptions import InverterError, MaxRetriesException, PartialResponseException, RequestFailedException, \
+    RequestRejectedException
 from .modbus import create_modbus_rtu_request, create_modbus_rtu_multi_request, create_modbus_tcp_request, \
     create_modbus_tcp_multi_request, validate_modbus_rtu_response, validate_modbus_tcp_response, MODBUS_READ_CMD, \
     MODBUS_WRITE_CMD, MODBUS_WRITE_MULTI_CMD
@@ -150,9 +151,16 @@ class UdpInverterProtocol(InverterProtocol, asyncio.DatagramProtocol):
         try:
             if self._partial_data and self._partial_missing == len(data):
                 logger.debug("Composed fragmented response: %s + %s", self._partial_data.hex(), data.hex())
-                data = self._partial_data + data
+                composed = self._partial_data + data
                 self._partial_data = None
                 self._partial_missing = 0
+                try:
+                    if self.command.validator(composed):
+                        data = composed
+                except InverterError:
+                    # the stored fragment was a stale one (e.g. a late piece of the answer to an earlier
+                    # transmission): judge the datagram on its own
+                    pass
             if self.command.validator(data):
                 logger.debug("Received: %s", data.hex())
                 self.response_future.set_result(data)
